@@ -64,17 +64,19 @@ func goid() uint64 {
 // ------------------------------------------------------------------ gate
 
 type thread struct {
-	tid, inst int
-	ops       []byte
-	state     int // 0 running, 1 parked, 2 done
-	granted   bool
-	gid       uint64
-	bypass    bool   // gates pass through (release operations, set-up)
-	atStart   bool   // parked at the operation-start gate
-	res       string // result of the operation that completed in the last step
-	resItem   string
-	opDirty   bool
-	own       string
+	tid, inst  int
+	ops        []byte
+	state      int // 0 running, 1 parked, 2 done
+	granted    bool
+	gid        uint64
+	bypass     bool   // gates pass through (release operations, set-up)
+	atStart    bool   // parked at the operation-start gate
+	res        string // result of the operation that completed in the last step
+	resItem    string
+	opDirty    bool
+	wasBlocked bool // was blocked before the last step of somebody else
+	blocked    bool // scheduler's cache: seen parked inside a lock since the last step of anybody
+	own        string
 }
 
 type gate struct {
@@ -123,17 +125,10 @@ func (g *gate) enterAt(start bool) {
 	g.mu.Unlock()
 }
 
-func (g *gate) settleLocked(th *thread) {
-	for th.state == 0 && !g.timeout {
-		g.cond.Wait()
-	}
-}
-
-// grant lets the thread run until it parks again or finishes.
-func (g *gate) grant(th *thread) {
+// release lets the parked thread go; it returns once the thread has left the gate.
+func (g *gate) release(th *thread) {
 	g.mu.Lock()
 	defer g.mu.Unlock()
-	g.settleLocked(th)
 	if th.state != 1 {
 		return
 	}
@@ -142,7 +137,136 @@ func (g *gate) grant(th *thread) {
 	for th.granted && !g.timeout {
 		g.cond.Wait()
 	}
-	g.settleLocked(th)
+}
+
+// lockBlocked: which goroutines are parked inside a sync lock operation called from code under
+// test (not from the harness's own gate).  The harness knows nothing about WHICH lock it is.
+var dumpBuf = make([]byte, 1<<16)
+
+var dumpN int
+var dumpT time.Duration
+
+func lockBlocked() map[uint64]bool {
+	t0 := time.Now()
+	defer func() { dumpN++; dumpT += time.Since(t0) }()
+	buf := dumpBuf
+	for {
+		n := runtime.Stack(buf, true)
+		if n < len(buf) {
+			buf = buf[:n]
+			break
+		}
+		dumpBuf = make([]byte, 2*len(buf))
+		buf = dumpBuf
+	}
+	out := map[uint64]bool{}
+	for _, blk := range strings.Split(string(buf), "\n\n") {
+		if !strings.HasPrefix(blk, "goroutine ") {
+			continue
+		}
+		lines := strings.Split(blk, "\n")
+		head := lines[0]
+		f := strings.Fields(head)
+		if len(f) < 3 {
+			continue
+		}
+		id, err := strconv.ParseUint(f[1], 10, 64)
+		if err != nil {
+			continue
+		}
+		st := head[strings.IndexByte(head, '[')+1:]
+		if !(strings.HasPrefix(st, "sync.Mutex.Lock") || strings.HasPrefix(st, "sync.RWMutex.") || strings.HasPrefix(st, "semacquire")) {
+			continue
+		}
+		// first frame that is neither runtime nor sync: it must be code under test
+		for _, ln := range lines[1:] {
+			if strings.HasPrefix(ln, "\t") || strings.HasPrefix(ln, " ") {
+				continue
+			}
+			if strings.HasPrefix(ln, "sync.") || strings.HasPrefix(ln, "runtime.") || strings.HasPrefix(ln, "internal/") {
+				continue
+			}
+			out[id] = !strings.Contains(ln, "tunnox-core/internal/verifharness")
+			break
+		}
+	}
+	return out
+}
+
+// quiesce waits until every thread is parked at a gate, finished, or blocked inside a lock of the
+// code under test (seen in three consecutive goroutine dumps, so that a lock held for an instant by
+// a background goroutine is not mistaken for a wait).
+func (g *gate) quiesce(ths []*thread) {
+	spins, confirm := 0, 0
+	for {
+		g.mu.Lock()
+		var running []*thread
+		for _, th := range ths {
+			if th.state != 0 {
+				th.blocked, th.wasBlocked = false, false
+			} else if !th.blocked {
+				running = append(running, th)
+			}
+		}
+		to := g.timeout
+		g.mu.Unlock()
+		if len(running) == 0 || to {
+			return
+		}
+		onlyOld := true
+		for _, th := range running {
+			if !th.wasBlocked {
+				onlyOld = false
+			}
+		}
+		spins++
+		if spins < 200 && !onlyOld {
+			// give a thread that is simply busy time to reach its next gate before stopping the world
+			// (no time.Sleep here: its granularity is far coarser than a step)
+			runtime.Gosched()
+			continue
+		}
+		bl := lockBlocked()
+		all := true
+		for _, th := range running {
+			if !bl[th.gid] {
+				all = false
+			}
+		}
+		if all {
+			confirm++
+			// a thread that was already seen blocked and still is after somebody's step needs no
+			// second look; a thread that has just run into a lock does
+			need := 1
+			for _, th := range running {
+				if !th.wasBlocked {
+					need = 3
+				}
+			}
+			if confirm >= need {
+				// a thread blocked in a lock stays so until some other thread takes a step
+				for _, th := range running {
+					th.blocked, th.wasBlocked = true, true
+				}
+				return
+			}
+			for i := 0; i < 20; i++ {
+				runtime.Gosched()
+			}
+		} else {
+			confirm = 0
+			for i := 0; i < 20; i++ {
+				runtime.Gosched()
+			}
+		}
+	}
+}
+
+// stale: a step was taken, so a thread seen blocked before may have been woken.
+func (g *gate) stale(ths []*thread) {
+	for _, th := range ths {
+		th.blocked = false
+	}
 }
 
 // ------------------------------------------------------------------ gated storage (one step = one call)
@@ -215,7 +339,7 @@ type env interface {
 	occupancy() int
 	digest() string
 	items() []string
-	locked(inst int) bool
+	other(th *thread, seq int) string // an admission by ANOTHER client through the same service instance ("" = ran)
 	close()
 }
 
@@ -226,8 +350,8 @@ type base struct {
 	cancel context.CancelFunc
 }
 
-func (b *base) locked(int) bool { return false }
-func (b *base) close()          { b.cancel() }
+func (b *base) other(*thread, int) string { return "err:no-other-client" }
+func (b *base) close()                    { b.cancel() }
 
 func errTok(err error) string {
 	s := strings.ReplaceAll(err.Error(), " ", "_")
@@ -535,14 +659,8 @@ func (e *mapEnv) release(th *thread, name string) bool {
 	return true
 }
 
-// occupancy: live tunnels of the mapping, or the slot counter if it is larger (a leaked slot)
-func (e *mapEnv) occupancy() int {
-	n := e.h.GetTunnelManager().CountTunnels()
-	if c := e.h.VerifActiveConnCount(); c > n {
-		n = c
-	}
-	return n
-}
+// occupancy: live tunnels of the mapping (exported tunnel manager; the slot counter is private)
+func (e *mapEnv) occupancy() int { return e.h.GetTunnelManager().CountTunnels() }
 func (e *mapEnv) items() []string {
 	e.mu.Lock()
 	defer e.mu.Unlock()
@@ -553,7 +671,7 @@ func (e *mapEnv) items() []string {
 	return r
 }
 func (e *mapEnv) digest() string {
-	return fmt.Sprintf("%d/%d", e.h.GetTunnelManager().CountTunnels(), e.h.VerifActiveConnCount())
+	return fmt.Sprintf("%d", e.h.GetTunnelManager().CountTunnels())
 }
 func (e *mapEnv) close() {
 	e.mu.Lock()
@@ -658,8 +776,13 @@ func (e *codeEnv) items() []string {
 	return r
 }
 func (e *codeEnv) digest() string { return storeDigest(e.raw) }
-func (e *codeEnv) locked(inst int) bool {
-	return e.svcs[inst].VerifCodeQuotaLocked()
+func (e *codeEnv) other(th *thread, seq int) string {
+	// refused or admitted there: either way it is not this client's business
+	_, err := e.svcs[th.inst].CreateConnectionCode(&conncode.CreateRequest{TargetClientID: int64(66000000 + seq), TargetAddress: "tcp://127.0.0.1:80", CreatedBy: "h"})
+	if err != nil && !coreerrors.IsCode(err, coreerrors.CodeQuotaExceeded) {
+		return errTok(err)
+	}
+	return ""
 }
 
 // ---- mapq : per-client quota on active mappings
@@ -828,7 +951,17 @@ func (e *mapqEnv) digest() string {
 	sort.Strings(ks)
 	return strings.Join(ks, "\x00")
 }
-func (e *mapqEnv) locked(inst int) bool { return e.svcs[inst].VerifMappingQuotaLocked() }
+func (e *mapqEnv) other(th *thread, seq int) string {
+	code, err := e.freshCode()
+	if err != nil {
+		return errTok(err)
+	}
+	_, err = e.svcs[th.inst].ActivateConnectionCode(&conncode.ActivateRequest{Code: code, ListenClientID: int64(44000000 + seq), ListenAddress: "0.0.0.0:7000"})
+	if err != nil && !coreerrors.IsCode(err, coreerrors.CodeQuotaExceeded) {
+		return errTok(err)
+	}
+	return ""
+}
 
 // ------------------------------------------------------------------ case
 
@@ -914,6 +1047,11 @@ func parseCase(s string) (*kase, bool) {
 				switch c := t.next(); c {
 				case "a", "r":
 					th.ops = append(th.ops, c[0])
+				case "o":
+					if k.proto != "code" && k.proto != "mapq" {
+						t.e = true // only the per-client quotas have other clients
+					}
+					th.ops = append(th.ops, c[0])
 				default:
 					t.e = true
 				}
@@ -960,6 +1098,16 @@ func newEnv(k *kase, g *gate) env {
 
 var timeouts int
 
+var allProcs = runtime.GOMAXPROCS(0)
+var curProcs = allProcs
+
+func setProcs(n int) {
+	if n != curProcs {
+		runtime.GOMAXPROCS(n)
+		curProcs = n
+	}
+}
+
 // ------------------------------------------------------------------ gated executor
 
 func execCase(cs string) (obs string) {
@@ -968,8 +1116,10 @@ func execCase(cs string) (obs string) {
 		return "bad-case"
 	}
 	if k.free {
+		setProcs(allProcs) // races need real parallelism
 		return execFree(k)
 	}
+	setProcs(2) // one thread runs at a time; stopping the world for a goroutine dump is cheap with few Ps
 	g := newGate()
 	e := newEnv(k, g)
 	defer func() {
@@ -1019,6 +1169,15 @@ func execCase(cs string) (obs string) {
 					th.res = "ref"
 				}
 				g.mu.Unlock()
+			case 'o':
+				et := e.other(th, th.tid*100+i)
+				g.mu.Lock()
+				if et != "" {
+					th.res = et
+				} else {
+					th.res = "oth"
+				}
+				g.mu.Unlock()
 			case 'r':
 				th.bypass = true
 				own := th.own
@@ -1051,24 +1210,22 @@ func execCase(cs string) (obs string) {
 				runThread(th)
 			}()
 			<-started
-			g.mu.Lock()
-			g.settleLocked(th)
-			g.mu.Unlock()
+			g.quiesce(k.threads[:th.tid+1])
 		}
 		for _, tid := range k.sched {
 			if tid < 0 || tid >= len(k.threads) {
 				continue
 			}
 			th := k.threads[tid]
+			g.quiesce(k.threads)
 			g.mu.Lock()
-			g.settleLocked(th)
 			st, atStart := th.state, th.atStart
 			g.mu.Unlock()
-			if st != 1 {
+			if st == 2 {
 				continue // finished program: the step changes nothing
 			}
-			if atStart && e.locked(th.inst) {
-				// the critical section is occupied: the request waits
+			if st == 0 {
+				// still blocked inside a lock of the code under test: the request keeps waiting
 				evs = append(evs, fmt.Sprintf("blk.%d.%d", tid, e.occupancy()))
 				continue
 			}
@@ -1077,11 +1234,14 @@ func execCase(cs string) (obs string) {
 			}
 			before := e.digest()
 			itemsBefore := e.items()
-			g.grant(th)
+			g.release(th)
+			g.stale(k.threads)
+			g.quiesce(k.threads)
 			after := e.digest()
 			g.mu.Lock()
 			res, item := th.res, th.resItem
 			th.res, th.resItem = "", ""
+			stNow := th.state
 			g.mu.Unlock()
 			if before != after {
 				th.opDirty = true
@@ -1089,6 +1249,13 @@ func execCase(cs string) (obs string) {
 			n := e.occupancy()
 			switch res {
 			case "":
+				if stNow == 0 {
+					// the step ended inside Lock(): the request queues up behind the holder
+					evs = append(evs, fmt.Sprintf("blk.%d.%d", tid, n))
+				} else {
+					evs = append(evs, fmt.Sprintf("stp.%d.%d", tid, n))
+				}
+			case "oth":
 				evs = append(evs, fmt.Sprintf("stp.%d.%d", tid, n))
 			case "adm":
 				num[item] = next
@@ -1338,6 +1505,9 @@ func main() {
 			return
 		}
 		obs := execAny(cs)
+		if os.Getenv("C17_DEBUG") != "" && out.Cases%500 == 0 {
+			fmt.Fprintf(os.Stderr, "cases=%d goroutines=%d\n", out.Cases, runtime.NumGoroutine())
+		}
 		dk := ""
 		if strings.Contains(cs, " thr ") || strings.HasPrefix(cs, "free") {
 			dk = cs
@@ -1377,6 +1547,9 @@ func main() {
 	}
 	if *nogen == "" {
 		generate(common.NewRand(*seed), *tier, emit)
+	}
+	if os.Getenv("C17_DEBUG") != "" {
+		fmt.Fprintf(os.Stderr, "dumps=%d time=%v\n", dumpN, dumpT)
 	}
 	out.Finish(*stats, nil)
 }
